@@ -106,12 +106,31 @@ pub fn g_b256_boundary() -> impl Strategy<Value = Vec<u8>> {
     (any::<u16>(), any::<u64>(), 0usize..3, any::<u8>()).prop_map(|(k, seed, extra, e)| {
         let n = [248usize, 249, 250, 251, 252, 250, 249, 1553, 1554, 1555, 1556][pick(k, 11)];
         let mut v: Vec<u8> = expand(seed, n).iter().map(|b| b | 0x80).collect();
-        for i in 0..extra {
+        match e % 4 {
             // a few characters of another kind in front or behind
-            if e & 1 == 0 {
-                v.push(b'0' + (e.wrapping_add(i as u8)) % 10);
-            } else {
-                v.insert(0, b'a' + (e.wrapping_add(i as u8)) % 26);
+            0 => {
+                for i in 0..extra {
+                    v.push(b'0' + (e.wrapping_add(i as u8)) % 10);
+                }
+            }
+            1 => {
+                for i in 0..extra {
+                    v.insert(0, b'a' + (e.wrapping_add(i as u8)) % 26);
+                }
+            }
+            // one ASCII character, then digits (the run may or may not swallow the character)
+            2 => {
+                v.push(b'a' + (e / 4) % 26);
+                for i in 0..extra {
+                    v.push(b'0' + (e.wrapping_add(i as u8)) % 10);
+                }
+            }
+            _ => {
+                for i in 0..=extra {
+                    v.push(b"z1 A"[(e as usize / 4 + i) % 4]);
+                }
+                v.push(b'7');
+                v.push(b'3');
             }
         }
         v
@@ -138,6 +157,7 @@ pub fn g_bytes_short() -> BoxedStrategy<(Vec<u8>, &'static str)> {
         5 => g_bytes_len(1, 8, 8, 40).prop_map(|v| (v, "len9-40")),
         2 => g_bytes_len(4, 16, 10, 120).prop_map(|v| (v, "len41-120")),
         4 => g_eod().prop_map(|v| (v, "eod-shaped")),
+        1 => g_b256_boundary().prop_filter_map("short variants only", |v| if v.len() < 300 { Some((v, "b256-length-boundary")) } else { None }),
     ]
     .boxed()
 }
@@ -276,6 +296,38 @@ pub fn resolve_fit(data: &[u8], modes: u8, macros: bool, fnc1: bool, k: u8) -> u
     }
 }
 
+/// G-exact: prepend digit pairs (one ASCII codeword each) so that the unpadded length of the
+/// crate's own encoding lands `slack` codewords below a real capacity.  End-of-data rules and the
+/// symbol choice are decided exactly there, and for long inputs (one capacity per ~50 codewords)
+/// fitted lists alone never get that close.  Construction by a probe encode, not rejection.
+pub fn fit_pad(data: &[u8], modes: u8, k: u8) -> Vec<u8> {
+    if modes & 1 == 0 || data.len() > 3000 {
+        return data.to_vec();
+    }
+    let probe = EncCase { data: data.to_vec(), list: ALL_MASK, modes, macros: false, fnc1: false, eci: None, stratum: "probe" };
+    let Some(dm) = guard(|| probe.encode()).ok().and_then(|r| r.ok()) else { return data.to_vec() };
+    let Ok(d) = refimpl::codec::ref_decode(dm.data_codewords()) else { return data.to_vec() };
+    let len = d.unpadded_len();
+    let slack = (k % 3) as usize;
+    let skip = (k / 3 % 2) as usize; // the next capacity or the one after
+    let mut caps: Vec<usize> = SYMBOLS.iter().map(|s| s.data).collect();
+    caps.sort_unstable();
+    caps.dedup();
+    let Some(cap) = caps.iter().filter(|c| **c >= len + slack).nth(skip) else { return data.to_vec() };
+    let need = cap - slack - len;
+    if need == 0 || need > 400 {
+        return data.to_vec();
+    }
+    let mut v = Vec::with_capacity(data.len() + 2 * need);
+    for i in 0..need {
+        v.push(b'0' + ((i * 7 + k as usize) % 10) as u8);
+        v.push(b'0' + ((i * 3 + 1) % 10) as u8);
+    }
+    // a separator keeps the pairs from merging with a leading digit of the body
+    v.extend_from_slice(data);
+    v
+}
+
 // ---------------------------------------------------------------------------------------------
 // G-modes
 // ---------------------------------------------------------------------------------------------
@@ -325,6 +377,18 @@ impl Default for EncGenOpts {
     }
 }
 
+fn exact_label(stratum: &'static str) -> &'static str {
+    match stratum {
+        "len0-8" => "len0-8+exact",
+        "len9-40" => "len9-40+exact",
+        "len41-300" | "len41-120" => "len41-300+exact",
+        "len301-3116" => "len301-3116+exact",
+        "eod-shaped" => "eod-shaped+exact",
+        "b256-length-boundary" => "b256-length-boundary+exact",
+        other => other,
+    }
+}
+
 pub fn g_enc_case(o: EncGenOpts) -> BoxedStrategy<EncCase> {
     let data = if o.short_only {
         prop_oneof![
@@ -359,8 +423,14 @@ pub fn g_enc_case(o: EncGenOpts) -> BoxedStrategy<EncCase> {
         Just(None).boxed()
     };
     let empty = if o.allow_empty_list { (0u8..20).boxed() } else { Just(1u8).boxed() };
-    (data, g_list(), modes, flags, eci, empty)
-        .prop_map(|((data, stratum), list, modes, (macros, fnc1), eci, empty)| {
+    (data, g_list(), modes, flags, eci, empty, any::<u8>())
+        .prop_map(|((data, stratum), list, modes, (macros, fnc1), eci, empty, fp)| {
+            // G-exact on a quarter of the non-macro cases (all Base256 length-boundary cases)
+            let (data, stratum) = if !stratum.starts_with("macro") && (fp % 4 == 0 || stratum == "b256-length-boundary") && !data.is_empty() {
+                (fit_pad(&data, modes, fp / 4), exact_label(stratum))
+            } else {
+                (data, stratum)
+            };
             let list = if empty == 0 {
                 0
             } else {
